@@ -215,7 +215,7 @@ impl Property for C15 {
         vec!["ground truth by construction plus the reference rule engine; summary oracle applies to layouts with >= 1 step".into()]
     }
     fn cases(tier: Tier) -> u64 {
-        tier.pick(4_000, 120_000)
+        tier.pick(8_000, 120_000)
     }
     fn strategy(tier: Tier) -> BoxedStrategy<Spec> {
         let depth = tier.pick(1usize, 2usize);
